@@ -23,22 +23,35 @@
 (* keeps the other template for ever (known finding C16; negative          *)
 (* control).  Atomic = TRUE makes the pair one step: Inv_TemplateIsRender  *)
 (* holds.                                                                  *)
+(*                                                                         *)
+(* Environment (C13): a render also takes the environment of the Package's *)
+(* namespace (HyperShift: the hosted cluster of that namespace; this       *)
+(* Package's namespace hosts none).  The controller keeps the probed       *)
+(* environment in a sink shared by all Packages it unpacks                 *)
+(* (internal/environment/environment.go, Sink.GetEnvironment).  CopyEnv =  *)
+(* TRUE: every pass works on its own deep copy.  CopyEnv = FALSE (a seeded *)
+(* change the trace checks caught): unpacking a neighbour Package in a     *)
+(* hosted cluster's namespace leaves that cluster in the sink, and the     *)
+(* next render of this Package - same files, spec and environment - gives  *)
+(* another template.                                                       *)
 (***************************************************************************)
 EXTENDS Integers, FiniteSets, TLC
 
-CONSTANTS Specs, Class, Atomic, MaxEdit, MaxFault, MaxTouch
+CONSTANTS Specs, Class, Atomic, CopyEnv, MaxEdit, MaxFault, MaxTouch
 
 VARIABLES pkg,   \* [spec, paused, unpacked (spec recorded in status.unpackedHash, or "-"), invalid (Invalid condition)]
-          dep,   \* [ex, tmpl, paused]
+          dep,   \* [ex, tmpl, env (the environment the template was rendered with), paused]
+          sink,  \* hosted cluster recorded in the controller's environment sink ("none" as probed)
           pc,    \* pass
           bud, stale, lastw
-vars == <<pkg, dep, pc, bud, stale, lastw>>
+vars == <<pkg, dep, sink, pc, bud, stale, lastw>>
+EnvOfP == IF CopyEnv THEN "none" ELSE sink
 
 Idle == [ st |-> "idle" ]
 NoW == [ op |-> "-" ]
 
 Init == /\ pkg = [ spec |-> CHOOSE s \in Specs : TRUE, paused |-> FALSE, unpacked |-> "-", invalid |-> FALSE ]
-        /\ dep = [ ex |-> FALSE, tmpl |-> "-", paused |-> FALSE ]
+        /\ dep = [ ex |-> FALSE, tmpl |-> "-", env |-> "-", paused |-> FALSE ] /\ sink = "none"
         /\ pc = Idle
         /\ bud = [ edit |-> 0, fault |-> 0, touch |-> 0 ]
         /\ stale = [ pkg |-> FALSE, dep |-> FALSE ]      \* written by somebody else since the pass read it
@@ -79,12 +92,12 @@ PK_Pull ==
 \* create the deployment if absent, then Update its template (conflict: Get again and retry)
 PK_Deploy ==
     /\ pc.st = "deploy"
-    /\ \/ /\ ~dep.ex /\ dep' = [ ex |-> TRUE, tmpl |-> "-", paused |-> FALSE ] /\ UNCHANGED <<pkg, pc, stale, bud>>
+    /\ \/ /\ ~dep.ex /\ dep' = [ ex |-> TRUE, tmpl |-> "-", env |-> "-", paused |-> FALSE ] /\ UNCHANGED <<pkg, pc, stale, bud>>
           /\ lastw' = [ op |-> "createdep", paused |-> pc.snap.paused ]
        \/ /\ dep.ex /\ stale.dep /\ stale' = [ stale EXCEPT !.dep = FALSE ] /\ UNCHANGED <<pkg, dep, pc, bud>>  \* Conflict -> Get -> retry
           /\ lastw' = NoW
        \/ /\ dep.ex /\ ~stale.dep
-          /\ dep' = [ dep EXCEPT !.tmpl = pc.snap.spec ]
+          /\ dep' = [ dep EXCEPT !.tmpl = pc.snap.spec, !.env = EnvOfP ]
           /\ lastw' = [ op |-> "template", spec |-> pc.snap.spec, paused |-> pc.snap.paused ]
           /\ IF Atomic
                THEN \* deploy and record in one step
@@ -123,9 +136,19 @@ TouchDep ==
     /\ stale' = [ stale EXCEPT !.dep = TRUE ] /\ bud' = [ bud EXCEPT !.touch = @ + 1 ]
     /\ lastw' = NoW /\ UNCHANGED <<pkg, dep, pc>>
 
-Next == PKNext \/ (\E s \in Specs : UserEdit(s)) \/ UserPause \/ TouchDep
+\* a neighbour Package in a hosted cluster's namespace is unpacked by the same controller (same sink): with its own copy
+\* of the environment nothing is left behind; without, the sink keeps the neighbour's hosted cluster
+NeighbourUnpack ==
+    /\ bud.touch < MaxTouch
+    /\ sink' = IF CopyEnv THEN sink ELSE "one"
+    /\ bud' = [ bud EXCEPT !.touch = @ + 1 ] /\ lastw' = NoW /\ UNCHANGED <<pkg, dep, pc, stale>>
+\* the environment manager's periodic probe replaces the sink's content
+ProbeEnv == /\ sink # "none" /\ sink' = "none" /\ lastw' = NoW /\ UNCHANGED <<pkg, dep, pc, bud, stale>>
+
+PKStep == PKNext /\ UNCHANGED sink
+Next == PKStep \/ (((\E s \in Specs : UserEdit(s)) \/ UserPause \/ TouchDep) /\ UNCHANGED sink) \/ NeighbourUnpack \/ ProbeEnv
 Spec == Init /\ [][Next]_vars
-FairSpec == Spec /\ WF_vars(PKNext)
+FairSpec == Spec /\ WF_vars(PKStep)
 
 -----------------------------------------------------------------------------
 TypeOK == pc.st \in {"idle", "getdep", "pull", "deploy", "record", "statusinvalid", "statusfail", "status0"}
@@ -143,6 +166,11 @@ Inv_C16_RecordJustified == (lastw.op = "record" /\ lastw.spec # lastw.snap.unpac
 \* -- violated by the code as found (Atomic = FALSE) after a failed record + revert
 Inv_C16_TemplateIsRender ==
     (pc.st = "idle" /\ ~pkg.paused /\ Class[pkg.spec] = "valid" /\ pkg.unpacked = pkg.spec) => (dep.ex /\ dep.tmpl = pkg.spec)
+
+\* C13: the template is rendered with the environment of the Package's own namespace ...
+Inv_C13_EnvIsOwn == (dep.ex /\ dep.tmpl # "-") => dep.env = "none"
+\* ... so a re-render of an unchanged spec leaves the deployment as it is (no new revision)
+Act_C13_UnchangedKeepsTemplate == [][(dep.ex /\ dep'.ex /\ dep.tmpl # "-" /\ dep'.tmpl = dep.tmpl) => dep'.env = dep.env]_vars
 
 \* liveness: once edits and faults are used up, a valid spec ends up deployed and recorded
 Quiet == bud.edit = MaxEdit /\ bud.fault = MaxFault /\ bud.touch = MaxTouch
